@@ -15,6 +15,8 @@
 -/
 import OllamaVerif.Proofs.GgufSafe
 import OllamaVerif.Proofs.GgufCreate
+import OllamaVerif.Proofs.GgufSteps
+import OllamaVerif.Proofs.GgufWeight
 
 namespace OllamaVerif.C10
 open OllamaVerif OllamaVerif.Gguf
@@ -85,6 +87,48 @@ def wGood : Bytes := [71, 71, 85, 70, 3, 0, 0, 0, 0, 0, 0, 0, 0, 0, 0, 0, 0, 0, 
 example : 16 * wGood.length ≤ budget ∧
     decode wGood 0 (some budget) Guards.pinned = decode wGood 0 (some budget) Guards.all ∧
     (decode wGood 0 (some budget)).isOk = true := ⟨by decide, by rfl, by decide⟩
+
+/-! ### running time and result size as functions of the input length (Proofs/GgufSteps.lean, GgufWeight.lean)
+
+  Lean's termination checker accepts `decode` because its loops recurse structurally on a count — but the count
+  is READ FROM THE FILE (up to 2^64).  `decodeFromT` is `decodeFrom` with an iteration counter on every loop. -/
+
+/-- **The decoder is total, fast and frugal on EVERY byte string**: with the working tree's validations, every
+    `maxArraySize` and a budget of 16 bytes per input byte,
+    * the instrumented decoder is the decoder (the counter is an annotation),
+    * it executes at most `len + 1` loop iterations (array elements, key/values, dimensions, tensor infos, seeks),
+      whatever counts the file declares,
+    * it ends in a value or an error that is neither a panic nor an allocation above the budget,
+    * a returned value retains at most `len + 24` bytes / cells (keys, strings, array cells, names, dimensions;
+      24 = the `general.parameter_count` entry the decoder adds). -/
+theorem decode_total_tree (bs : Bytes) (maxArraySize : Int) (B : Nat) (hB : 16 * bs.length ≤ B) :
+    (decodeFromT ⟨bs, 0⟩ maxArraySize (some B) Guards.tree).1 = decode bs maxArraySize (some B) ∧
+    (decodeFromT ⟨bs, 0⟩ maxArraySize (some B) Guards.tree).2 ≤ bs.length + 1 ∧
+    Safe (decode bs maxArraySize (some B)) ∧
+    ∀ d, decode bs maxArraySize (some B) = .ok d → d.weight ≤ bs.length + 24 :=
+  ⟨decodeFromT_fst _ _ _ _, decodeFromT_steps _ _ _ _, decode_safe_all bs maxArraySize B hB,
+   fun d h => decodeFrom_weight ⟨bs, 0⟩ maxArraySize (some B) Guards.tree d h⟩
+
+/-- the two bounds do not depend on the validations: upstream's pinned decoder, when it does not panic, is as fast
+    and as frugal (its defects are the panics, the single huge `make`s and create's loop, not its own loops) -/
+theorem decode_steps_any_guards (r : Rd) (maxArraySize : Int) (budget : Option Nat) (g : Guards) :
+    (decodeFromT r maxArraySize budget g).1 = decodeFrom r maxArraySize budget g ∧
+    (decodeFromT r maxArraySize budget g).2 ≤ r.rest.length + 1 ∧
+    ∀ d, decodeFrom r maxArraySize budget g = .ok d → d.weight ≤ r.rest.length + 24 :=
+  ⟨decodeFromT_fst _ _ _ _, decodeFromT_steps _ _ _ _, fun d h => decodeFrom_weight r maxArraySize budget g d h⟩
+
+/-- non-vacuity: one key `a` = `[]uint32{1, 2}`: 1 key/value iteration + 2 element iterations; weight = key 1 + array
+    1 + 2 cells, + the parameter count's 24 -/
+def wArr2 : Bytes := [71, 71, 85, 70, 3, 0, 0, 0, 0, 0, 0, 0, 0, 0, 0, 0, 1, 0, 0, 0, 0, 0, 0, 0, 1, 0, 0, 0, 0, 0, 0, 0, 97,
+  9, 0, 0, 0, 4, 0, 0, 0, 2, 0, 0, 0, 0, 0, 0, 0, 1, 0, 0, 0, 2, 0, 0, 0]
+example : (decodeFromT ⟨wArr2, 0⟩ 0 (some budget)).2 = 3 ∧
+    (decode wArr2 0 (some budget)).toOption.map (·.weight) = some 28 := by decide
+/-- … and the same file declaring 2^40 elements: the loop stops after the two elements that are there (3rd iteration
+    fails), not after 2^40 -/
+def wArrMany : Bytes := [71, 71, 85, 70, 3, 0, 0, 0, 0, 0, 0, 0, 0, 0, 0, 0, 1, 0, 0, 0, 0, 0, 0, 0, 1, 0, 0, 0, 0, 0, 0, 0, 97,
+  9, 0, 0, 0, 4, 0, 0, 0, 0, 0, 0, 0, 0, 1, 0, 0, 1, 0, 0, 0, 2, 0, 0, 0]
+example : (decodeFromT ⟨wArrMany, 0⟩ 0 (some budget)).2 = 4 ∧
+    failsWith (decode wArrMany 0 (some budget)) .eof = true := by decide
 
 /-! ### `POST /api/create` on an uploaded file: `server/create.go ggufLayers`
 
